@@ -101,6 +101,7 @@ SPEC_NAMES = {
     "h2_sendable",
     "call_raised",
     "pseudo",
+    "no_pseudo_names",
 }
 
 
@@ -542,6 +543,10 @@ class SpecMixin:
             walk(v.e)
         elif type(v).__name__ == "Bottom":
             return False
+        elif isinstance(v, SymAny) and mode == "prove":
+            # an application supplied value that went through no validation: nothing is known
+            # about its elements, so the property cannot be proved of it (the obligation fails)
+            return mk_bool(z3.Bool(self.ctx.fresh_name(f"unvalidated({v.name})")))
         else:
             raise ContractError(f"seq_forall over {v!r}")
         return mk_bool(z3.And(*out)) if out else True
@@ -558,6 +563,12 @@ class SpecMixin:
             return False
         t = ops.truth(self.ctx, v)
         return t if isinstance(t, bool) else mk_bool(t)
+
+    def sp_no_pseudo_names(self, e, fr):
+        """no_pseudo_names(headers): no header name starts with ':'"""
+        from .sym import Pair
+
+        return self.seq_forall(self.ev(e.args[0], fr), lambda el: z3.Not(z3.PrefixOf(z3.StringVal(":"), Pair.fst(el))))
 
     def sp_no_ctl_chars(self, e, fr):
         """no_ctl_chars(headers): no name or value contains CR, LF or NUL"""
